@@ -1329,6 +1329,8 @@ func (txn *V2Transaction) DecodeFrom(d *Decoder) {
 
 	fields := d.ReadUint64()
 
+	// NOTE: absent fields are not transmitted; clear them in case txn is reused
+	*txn = V2Transaction{}
 	if fields&(1<<0) != 0 {
 		DecodeSlice(d, &txn.SiacoinInputs)
 	}
